@@ -136,7 +136,7 @@ def run_unit(spec):
     if not obl or ("VERIFICATION SUCCESSFUL" not in out and "VERIFICATION FAILED" not in out):
         res.update(status="undecided", reason="no verdict from cbmc (rc=%s): %s" % (rc, out.strip()[-300:]))
         return res
-    reach = [o for o in obl if classify(o[0], o[1]) == "reach"]
+    reach = [o for o in obl if classify(o[0], o[1]) == "reach" and o[0].startswith(spec["entry"] + ".")]
     real = [o for o in obl if classify(o[0], o[1]) != "reach"]
     res["obligations"] = len(real)
     res["discharged"] = sum(1 for o in real if o[2] == "SUCCESS")
